@@ -23,7 +23,7 @@ def run(ck):
     build_driver(); build_harness()
     rng = Rng(ck.seed, "C20")
     bad_total = []
-    for deg in ([5, 16, 33, 300] if quick else [1, 2, 5, 16, 33, 64, 100, 300, 1100]):
+    for deg in ([5, 16, 33, 300, 8200] if quick else [1, 2, 5, 16, 33, 64, 100, 300, 1100, 8200, 16390]):
         draw = bytes(rng.randrange(256) for _ in range(64))
         x = int.from_bytes(draw, "little") % R
         H, M, exp = [], [], {}
